@@ -12,8 +12,9 @@
     nervusdb-query/src/executor/write_path.rs         execute_set (per matched row: evaluate, then stage)
     nervusdb-storage/src/engine.rs  WriteTxn (staged = created_nodes + memtable), commit
   The two switches `atomic` and `ryw` select the semantics: the code is `(false, false)`;
-  `Spec.TxnSem` uses the other combinations.  Core only.
+  `Spec.TxnSem` uses the other combinations.  Core only; `Generated.CapiTxn` is re-read from the source on every check.
 -/
+import Nervus.Model.Generated.CapiTxn
 namespace Nervus.Txn
 
 /-- the payload property `q` of a node: the literals `true`, `false`, `'x'`, `1` -/
@@ -118,7 +119,7 @@ def execCreate (lbl : Nat) (withP : Bool) : Nat → List (Nat × Q) → Res
     let node : Prim := .add ⟨id, lbl, k, some q, none⟩
     if withP then
       match toBool (some q) with
-      | .error _ => ⟨[node], true⟩
+      | .error _ => ⟨if Generated.createStagesNodeBeforeProps then [node] else [], true⟩
       | .ok none =>
         let r := execCreate lbl withP (id + 1) rows
         ⟨node :: r.prims, r.failed⟩
@@ -212,9 +213,9 @@ def run (atomic ryw : Bool) (σ : State) : List Op → State
   | [] => σ
   | op :: ops => run atomic ryw (step atomic ryw σ op).1 ops
 
-/-- the code as it is -/
-abbrev codeStep := step false false
-abbrev codeRun := run false false
+/-- the code as it is: the two switches are read off `execute_write_in_txn` (regenerated table) -/
+def codeStep := step Generated.capiTxnStmtAtomic Generated.capiTxnReadsStaged
+def codeRun := run Generated.capiTxnStmtAtomic Generated.capiTxnReadsStaged
 
 /-! ### trigger predicates of the two known findings -/
 
@@ -233,15 +234,25 @@ def anyPartialEffect (σ : State) : List Op → Bool
     (match op with | .tq s => partialEffect σ s | _ => false) || anyPartialEffect (codeStep σ op).1 ops
 
 /-- C24 trigger, on the statement sequence alone: a statement of an explicit transaction reads a label that an
-    earlier statement of the same transaction writes.  `w` = labels written so far in the open transaction. -/
-def readsOwnWrites (w : List Nat) : List Op → Bool
+    earlier statement of the same transaction writes.  The tracker state is `none` outside a transaction and
+    `some w` inside one, `w` = the labels written so far. -/
+def hit (w : Option (List Nat)) : Op → Bool
+  | .tq s => match w, s.reads with
+    | some ws, some l => ws.contains l
+    | _, _ => false
+  | _ => false
+
+def track (w : Option (List Nat)) : Op → Option (List Nat)
+  | .begin => match w with | none => some [] | some ws => some ws
+  | .tq s => match w with
+    | some ws => some (match s.writes with | some l => l :: ws | none => ws)
+    | none => none
+  | .commit => none
+  | .rollback => none
+  | .auto _ => w
+
+def readsOwnWrites (w : Option (List Nat)) : List Op → Bool
   | [] => false
-  | .tq s :: ops =>
-    (match s.reads with | some l => w.contains l | none => false) ||
-      readsOwnWrites (match s.writes with | some l => l :: w | none => w) ops
-  | .begin :: ops => readsOwnWrites [] ops
-  | .commit :: ops => readsOwnWrites [] ops
-  | .rollback :: ops => readsOwnWrites [] ops
-  | .auto _ :: ops => readsOwnWrites w ops
+  | op :: ops => hit w op || readsOwnWrites (track w op) ops
 
 end Nervus.Txn
